@@ -1044,13 +1044,14 @@ int run_main(int argc, char** argv) {
     State root; root.parent = -1; root.op = -1; root.depth = 0; root.init = 0; ST.push_back(root);
     size_t pos = 0; int cur = 0;
     while (pos < hs.size()) { size_t e = hs.find(';', pos); if (e == std::string::npos) e = hs.size(); std::string nm = hs.substr(pos, e - pos); pos = e + 1;
-      int oi = -1; for (size_t i = 0; i < OPS.size(); ++i) if (OPS[i].name == nm) oi = (int)i;
+      Pre dm; dm.s[0].dim = dm.s[1].dim = INITS[0].dim;
+      int oi = -1; for (size_t i = 0; i < OPS.size(); ++i) if (OPS[i].name == nm && OPS[i].ok(dm)) oi = (int)i;
       if (oi < 0) { fprintf(stderr, "unknown operation '%s'\n", nm.c_str()); return 2; }
       State n; n.parent = cur; n.op = oi; n.depth = ST[cur].depth + 1; n.init = 0; ST.push_back(n); cur = (int)ST.size() - 1; }
     Pool2 P; replay(cur, P); Pre pre; pre.s[0] = snap_of(*P.p[0]); pre.s[1] = snap_of(*P.p[1]);
     printf("state: p0 = %s\n       p1 = %s\n", ustr(pre.s[0].seq).c_str(), ustr(pre.s[1].seq).c_str());
-    int oi = -1; for (size_t i = 0; i < OPS.size(); ++i) if (OPS[i].name == opn) oi = (int)i;
-    if (oi < 0) { fprintf(stderr, "unknown operation '%s'\n", opn.c_str()); return 2; }
+    int oi = -1; for (size_t i = 0; i < OPS.size(); ++i) if (OPS[i].name == opn && OPS[i].ok(pre)) oi = (int)i;
+    if (oi < 0) { fprintf(stderr, "unknown or inapplicable operation '%s'\n", opn.c_str()); return 2; }
     bool applied; std::vector<Outcome> o = run_once(cur, oi, pre, applied);
     for (size_t i = 0; i < o.size(); ++i) printf("VIOLATED %s %s [%s]\n  observed: %s\n  expected: %s\n  %s\n", o[i].site.c_str(), o[i].clause.c_str(), o[i].trigger.c_str(), o[i].observed.c_str(), o[i].expected.c_str(), o[i].detail.c_str());
     if (o.empty()) printf("no violation\n");
